@@ -12,6 +12,8 @@
      savedirtree <quote> <all> <n> (<relpath> <data>)* <m> (<relpath of a directory>)*
                                            -> <hex of format (savedir_tree ...)>: the same through the
                                               rose-tree walk (empty directories included)
+     swrite <cwd> <dir> <nfs> (<path> D|F|L <data or link target>)* <nfiles> (<name> <data>)*
+                                           -> <res> <n> (<path> D|F|L <data or target>)*   (model with symbolic links)
      entryname <dir argument> <relpath>    -> <hex: the archive name txtar-c gives the file>
      mode <umask decimal> D|F              -> <decimal permission bits of a created object>
      restore <archive bytes> <name> <stored>
@@ -49,6 +51,28 @@ let show_fs (fs : fsys) =
   string_of_int (List.length items) ^
   String.concat "" (List.map (fun (s, n) ->
     " " ^ hex_of_string s ^ (match n with Dir -> " D -" | File d -> " F " ^ hex_of_bytes d)) items)
+let serrno_s = function S_EEXIST -> "EEXIST" | S_ENOENT -> "ENOENT" | S_ENOTDIR -> "ENOTDIR"
+  | S_ELOOP -> "ELOOP" | S_EINVAL -> "EINVAL"
+let sres_s = function
+  | SOk -> "ok" | SOutside -> "outside" | SOutOfFuel -> "fuel"
+  | SErrMkdir e -> "mkdir:" ^ serrno_s e | SErrOpen e -> "open:" ^ serrno_s e
+let rec take_sfs n l acc =
+  if n = 0 then (List.rev acc, l) else
+  match l with
+  | p :: k :: d :: r ->
+      let node = if k = "D" then SDir else if k = "L" then SLink (bytes_of_hex d) else SFile (bytes_of_hex d) in
+      take_sfs (n - 1) r ((path_of_hex p, node) :: acc)
+  | _ -> failwith "bad sfs"
+let show_sfs (fs : sfsys) =
+  let seen = Hashtbl.create 64 in
+  let items = List.filter_map (fun (p, n) ->
+    let s = path_string p in
+    if Hashtbl.mem seen s then None else (Hashtbl.add seen s (); Some (s, n))) fs in
+  let items = List.sort (fun (a, _) (b, _) -> compare a b) items in
+  string_of_int (List.length items) ^
+  String.concat "" (List.map (fun (s, n) ->
+    " " ^ hex_of_string s ^ (match n with SDir -> " D -" | SFile d -> " F " ^ hex_of_bytes d
+                                        | SLink t -> " L " ^ hex_of_bytes t)) items)
 let bool01 s = (s = "1")
 (* build the rose tree from (elements, Some data | None = directory) items *)
 let rec build_tree (items : (byte list list * byte list option) list) : (byte list * rnode) list =
@@ -88,6 +112,14 @@ let () = serve (function
       let (files, _) = take_files (int_of_string n) r [] in
       let t = List.map (fun (p, d) -> (split_sep p, d)) files in
       hex_of_bytes (txtar_c { f_quote = bool01 q; f_all = bool01 a } t)
+  | "swrite" :: cwd :: dir :: nfs :: r ->
+      let (fs, r) = take_sfs (int_of_string nfs) r [] in
+      (match r with
+       | nf :: r ->
+           let (files, _) = take_files (int_of_string nf) r [] in
+           let (fs', res) = s_write (path_of_hex cwd) fs (bytes_of_hex dir) files in
+           sres_s res ^ " " ^ show_sfs fs'
+       | [] -> "BAD-REQUEST")
   | "savedirtree" :: q :: a :: n :: r ->
       let (files, r) = take_files (int_of_string n) r [] in
       let dirs = (match r with m :: r -> take_dirs (int_of_string m) r [] | [] -> []) in
